@@ -12,6 +12,8 @@ import GlmVerif.Props.C17.T_qctor_wxyz
 import GlmVerif.Props.C17.T_qctor_sv
 import GlmVerif.Props.C17.T_mctor
 import GlmVerif.Props.C17.T_mctorc
+import GlmVerif.Props.C17.T_mdiag
+import GlmVerif.Props.C17.T_mconv
 /-! every family table of C17 holds for the model generated from the current /repo -/
 namespace Glm.Props.C17
 open Glm Glm.Spec.C17 Glm.Gen.C17
@@ -29,5 +31,7 @@ theorem all_ok : ∀ f ∈ families, f.ok lookup = true := by
     (Family.ok_congr f_qctor_wxyz (fun ks => by rw [show f_qctor_wxyz.unit = "qctor_wxyz" from rfl, lookup_qctor_wxyz])).trans qctor_wxyz_ok,
     (Family.ok_congr f_qctor_sv (fun ks => by rw [show f_qctor_sv.unit = "qctor_sv" from rfl, lookup_qctor_sv])).trans qctor_sv_ok,
     (Family.ok_congr f_mctor (fun ks => by rw [show f_mctor.unit = "mctor" from rfl, lookup_mctor])).trans mctor_ok,
-    (Family.ok_congr f_mctorc (fun ks => by rw [show f_mctorc.unit = "mctorc" from rfl, lookup_mctorc])).trans mctorc_ok⟩
+    (Family.ok_congr f_mctorc (fun ks => by rw [show f_mctorc.unit = "mctorc" from rfl, lookup_mctorc])).trans mctorc_ok,
+    (Family.ok_congr f_mdiag (fun ks => by rw [show f_mdiag.unit = "mdiag" from rfl, lookup_mdiag])).trans mdiag_ok,
+    (Family.ok_congr f_mconv (fun ks => by rw [show f_mconv.unit = "mconv" from rfl, lookup_mconv])).trans mconv_ok⟩
 end Glm.Props.C17
